@@ -70,14 +70,20 @@ theorem encdec_leaf (c : Codecs) (hl : c.Lawful) (reg : List Str) (decls : Decls
       by simp [structF, resolvable, hres, structLeaf, hl.1 s b hs], by simp⟩
   | datetime =>
     obtain ⟨b, rfl, s, hs⟩ := h
-    exact ⟨.str (c.datetime.encode b), by simp [unstrF, unstrLeaf, tbl_datetime.2],
+    exact ⟨.str (c.datetime.encode b), by simp [unstrF, unstrLeaf, unstrIso, tbl_datetime.2],
       by simp [structF, resolvable, hres, structLeaf, hl.2.1 s b hs], by simp⟩
   | date =>
     obtain ⟨b, rfl, s, hs⟩ := h
-    exact ⟨.str (c.date.encode b), by simp [unstrF, unstrLeaf, tbl_date.2],
-      by simp [structF, resolvable, hres, structLeaf, hl.2.2 s b hs], by simp⟩
-  | uuid => exact absurd h (by simp)
-  | time => exact absurd h (by simp)
+    exact ⟨.str (c.date.encode b), by simp [unstrF, unstrLeaf, unstrIso, tbl_date.2],
+      by simp [structF, resolvable, hres, structLeaf, hl.2.2.1 s b hs], by simp⟩
+  | time =>
+    obtain ⟨b, rfl, s, hs⟩ := h
+    exact ⟨.str (c.time.encode b), by simp [unstrF, unstrLeaf, unstrIso, tbl_time.2],
+      by simp [structF, resolvable, hres, structLeaf, hl.2.2.2.1 s b hs], by simp⟩
+  | uuid =>
+    obtain ⟨b, rfl, s, hs⟩ := h
+    exact ⟨.str (c.uuid.encode b), by simp [unstrF, unstrLeaf, tbl_uuid.2],
+      by simp [structF, resolvable, hres, structLeaf, hl.2.2.2.2 s b hs], by simp⟩
 
 theorem encdec_any (c : Codecs) (reg : List Str) (decls : Decls) (n : Nat) (v : Val)
     (h : HasTypeF c (n + 1) decls .any v) : EncDec c reg decls (n + 1) .any v := by
@@ -362,7 +368,25 @@ theorem date_lawful : Codecs.exec.date.Lawful := by
   · rw [if_pos hd] at h; cases h; simp only [id, hd, if_true]
   · rw [if_neg hd] at h; cases h
 
-theorem exec_lawful : Codecs.exec.Lawful := ⟨bytes_lawful, dt_lawful, date_lawful⟩
+theorem time_lawful : Codecs.exec.time.Lawful := by
+  intro s v h
+  simp only [Codecs.exec] at h ⊢
+  have hnz := not_mem_replaceZ s
+  by_cases ht : isoTimeValid (replaceZ s) = true
+  · rw [if_pos ht] at h
+    cases h
+    simp only [id, replaceZ_of_not_mem _ hnz]
+    rw [if_pos ht]
+  · rw [if_neg ht] at h; cases h
+
+theorem uuid_lawful : Codecs.exec.uuid.Lawful := by
+  intro s v h
+  simp only [Codecs.exec] at h ⊢
+  by_cases hd : uuidCanonical s = true
+  · rw [if_pos hd] at h; cases h; simp only [id, hd, if_true]
+  · rw [if_neg hd] at h; cases h
+
+theorem exec_lawful : Codecs.exec.Lawful := ⟨bytes_lawful, dt_lawful, date_lawful, time_lawful, uuid_lawful⟩
 
 end Pog
 
